@@ -303,6 +303,41 @@ def determinism(prog, run, reach):
 
 
 # ----------------------------------------------------------------------------- R-result-fresh
+def _fresh(prog, fi, at, v, depth=3):
+    """True: the value is an object constructed on this path (its result class, directly or inside a helper whose every return is
+    fresh); False: an existing object (attribute of self, parameter, None); None: not recognised"""
+    if v is None or (isinstance(v, ast.Constant) and v.value is None):
+        return False
+    x = astq.expr_at(fi, at, v) if isinstance(v, ast.Name) else v
+    if isinstance(x, ast.Call):
+        if isinstance(x.func, ast.Attribute) and x.func.attr == "ResultCls":
+            return True
+        try:
+            res = prog.resolve_call(fi, x)
+        except Exception:
+            res = None
+        if isinstance(res, ClassInfo):
+            return True
+        if isinstance(res, FuncInfo) and depth > 0 and res.node is not getattr(fi, "node", None):
+            rets = [n for n in ast.walk(res.node) if isinstance(n, ast.Return)]
+            if not rets:
+                return False
+            vals = [_fresh(prog, res, r, r.value, depth - 1) for r in rets]
+            return False if any(x_ is False for x_ in vals) else (True if all(x_ is True for x_ in vals) else None)
+        return None
+    if isinstance(x, ast.Attribute):
+        base = x
+        while isinstance(base, ast.Attribute):
+            base = base.value
+        if isinstance(base, ast.Name) and base.id == "self":
+            return False        # an object that already lives on the instance (e.g. the result of the previous run)
+        return None
+    if isinstance(x, ast.Name):
+        pos, kwo, _, _ = astq.params_of(fi.node)
+        return False if x.id in pos + kwo else None
+    return None
+
+
 def result_fresh(prog, run):
     for ci in algo_classes(prog):
         m = ci.methods.get("run")
@@ -310,20 +345,13 @@ def result_fresh(prog, run):
             continue
         f = rel(prog.mods[m.mod].path)
         rets = [n for n in ast.walk(m.node) if isinstance(n, ast.Return)]
-        ok = bool(rets)
+        ok = True if rets else False
         why = []
         for r in rets:
-            v = r.value
-            good = False
-            if isinstance(v, ast.Call):
-                res = prog.resolve_call(m, v)
-                if isinstance(res, ClassInfo):
-                    good = True
-                elif isinstance(v.func, ast.Attribute) and v.func.attr == "ResultCls":
-                    good = True
-            if not good:
-                ok = False
-                why.append(astq.src(v, 50) if v is not None else "None")
+            good = _fresh(prog, m, r, r.value)
+            if good is not True:
+                ok = False if (good is False or ok is False) else None
+                why.append(astq.src(r.value, 50) if r.value is not None else "None")
         run.ob("R-result-fresh", m.qual, "returns a newly constructed result object", ok, "constructs its result class" if ok else f"returns {why}", witness=";".join(why), file=f, node=m.node)
     # instance-only assignment of result / run_params / data / fs
     n_sites = 0
